@@ -83,6 +83,7 @@ var UtxoValidationRules = []common.UtxoValidationRuleFunc{
 	UtxoValidatePlutusScripts,
 	UtxoValidateNativeScripts,
 	UtxoValidateDelegation,
+	UtxoValidateCertificateDeposits,
 	UtxoValidateWithdrawals,
 	UtxoValidateCommitteeCertificates,
 	UtxoValidateUnknownVoters,
@@ -2917,6 +2918,73 @@ func UtxoValidateDelegation(
 					Credential: common.NewBlake2b224(c.Drep.Credential),
 				}}
 			}
+		}
+	}
+	return nil
+}
+
+// UtxoValidateCertificateDeposits checks the deposit and refund amounts named
+// by CIP-0094 certificates (ConwayDelegPredFailure.IncorrectDepositDELEG,
+// ConwayGovCertPredFailure.ConwayDRepIncorrectDeposit/ConwayDRepIncorrectRefund).
+// UtxoValidateValueNotConservedUtxo balances the transaction with the amounts
+// written in the certificates, so they must be the amounts the ledger uses:
+//   - a stake registration (also combined with a delegation) names the
+//     KeyDeposit protocol parameter
+//   - a DRep registration names the DRepDeposit protocol parameter
+//   - a DRep deregistration names the deposit recorded for that DRep, when the
+//     ledger state knows the DRep
+//
+// The refund of a stake deregistration certificate cannot be checked here:
+// the ledger state interface does not expose the deposit recorded for a stake
+// credential.
+func UtxoValidateCertificateDeposits(
+	tx common.Transaction,
+	slot uint64,
+	ls common.LedgerState,
+	pp common.ProtocolParameters,
+) error {
+	depositParams, ok := pp.(interface {
+		KeyDepositAmount() *big.Int
+		DRepDepositAmount() *big.Int
+	})
+	if !ok {
+		return nil
+	}
+	check := func(certType uint, amount int64, expected *big.Int) error {
+		if expected == nil || big.NewInt(amount).Cmp(expected) == 0 {
+			return nil
+		}
+		return IncorrectCertificateDepositError{
+			CertificateType: common.CertificateType(certType),
+			Supplied:        amount,
+			Expected:        expected,
+		}
+	}
+	for _, cert := range tx.Certificates() {
+		var err error
+		switch c := cert.(type) {
+		case *common.RegistrationCertificate:
+			err = check(c.CertType, c.Amount, depositParams.KeyDepositAmount())
+		case *common.StakeRegistrationDelegationCertificate:
+			err = check(c.CertType, c.Amount, depositParams.KeyDepositAmount())
+		case *common.VoteRegistrationDelegationCertificate:
+			err = check(c.CertType, c.Amount, depositParams.KeyDepositAmount())
+		case *common.StakeVoteRegistrationDelegationCertificate:
+			err = check(c.CertType, c.Amount, depositParams.KeyDepositAmount())
+		case *common.RegistrationDrepCertificate:
+			err = check(c.CertType, c.Amount, depositParams.DRepDepositAmount())
+		case *common.DeregistrationDrepCertificate:
+			reg, lookupErr := ls.DRepRegistration(c.DrepCredential.Credential)
+			if lookupErr == nil && reg != nil {
+				err = check(
+					c.CertType,
+					c.Amount,
+					new(big.Int).SetUint64(reg.Deposit),
+				)
+			}
+		}
+		if err != nil {
+			return err
 		}
 	}
 	return nil
